@@ -423,6 +423,8 @@ def sdp_strategy():
             'queries': st.lists(query, min_size=1, max_size=4),
             'gaps': st.lists(st.sampled_from([0, 0, 1, 3, 20]), max_size=4),
             'delays': st.lists(st.sampled_from([0, 0, 0, 1, 7, 50]), max_size=4),
+            # None: the SDP channel is opened before anybody queries; k: opened k ms after the others started querying
+            'join': st.sampled_from([None, None, None, 0, 1, 3, 8, 15, 30, 60]),
         }
     )
     return st.fixed_dictionaries(
@@ -543,10 +545,15 @@ def sdp_finalize(drawn) -> dict:
                     queries.append(['ga', 0x00424242, _resolve_ids(q[2], records, None)])
             else:
                 queries.append(['sa', _resolve_pattern(q[1], records), _resolve_ids(q[2], records, None)])
-        clients.append({'mtu': c['mtu'], 'queries': queries, 'gaps': list(c['gaps']), 'delays': list(c['delays'])})
+        clients.append({'mtu': c['mtu'], 'queries': queries, 'gaps': list(c['gaps']), 'delays': list(c['delays']),
+                        'join': c.get('join') if clients else None})
     if many:
         c0 = clients[0]
         c0['mtu'] = 48 + seed % 11
+        if len(clients) > 1:
+            # somebody opens its SDP channel while client 0 is between two PDUs of its continued answer
+            c0['delays'] = [(1, 3, 7)[seed % 3]]
+            clients[1]['join'] = (2, 5, 9, 14, 20, 33, 47)[seed % 7]
         pattern = [[common[0], uuid_width(common[0], (2, 4, 16)[(seed >> 2) % 3])]]
         first = ['ss', pattern] if seed % 4 else ['sa', pattern, [[0, 0xFFFF]]]
         c0['queries'] = [first] + c0['queries'][: 3]
@@ -673,25 +680,41 @@ def run_sdp_case(ctx, case) -> None:
             r['handle']: [ServiceAttribute(a, build_de(v)) for a, v in r['attrs']] for r in records
         }
         sdp_clients = []
-        for i, c in enumerate(clients):
-            conn, _ = await w.connect_classic(i + 1, 0)
-            client = sdp.Client(conn, mtu=int(c['mtu']))
+
+        async def open_channel(client, mtu):
             await client.connect()
             # observe response PDU sizes (noted, not asserted)
             inner = client.channel.sink
 
-            def sink(pdu, inner=inner, mtu=int(c['mtu'])):
+            def sink(pdu, inner=inner, mtu=mtu):
                 if len(pdu) > mtu:
                     state['max_pdu_over'] = max(state['max_pdu_over'], len(pdu) - mtu)
                 inner(pdu)
 
             client.channel.sink = sink
+
+        for i, c in enumerate(clients):
+            conn, _ = await w.connect_classic(i + 1, 0)
+            client = sdp.Client(conn, mtu=int(c['mtu']))
             sdp_clients.append(client)
+            if c.get('join') is None:
+                await open_channel(client, int(c['mtu']))
         state['phase'] = 'queries'
 
         async def one_client(i):
             client = sdp_clients[i]
             gaps = clients[i].get('gaps') or []
+            if clients[i].get('join') is not None:
+                # a late comer: opens its SDP channel while the others are querying
+                await asyncio.sleep(clients[i]['join'] * 0.001)
+                try:
+                    await open_channel(client, int(clients[i]['mtu']))
+                except asyncio.CancelledError:
+                    raise
+                except Exception as e:  # noqa: BLE001
+                    for j in range(len(clients[i]['queries'])):
+                        results[i][j] = ('exc', type(e).__name__, 'connect: ' + str(e)[:90])
+                    return
             for j, q in enumerate(clients[i]['queries']):
                 if gaps:
                     g = gaps[j % len(gaps)]
@@ -729,6 +752,8 @@ def run_sdp_case(ctx, case) -> None:
         except vloop.BudgetExceeded:
             outcome = 'budget'
         labels = {f'sdp:clients:{n}'}
+        if any(c.get('join') is not None for c in clients):
+            labels.add('sdp:late_joiner')
         nontrivial = n >= 2
         results.loop_errors = list(loop.errors)
         if state['phase'] == 'setup':
@@ -1704,7 +1729,7 @@ def run(ctx) -> None:
     ctx.hyp('avctp', lambda c: run_avctp_case(ctx, dict(c, layout=layout)), av_strategy('avctp'), max_examples=ctx.n(2000, 150000))
     ctx.hyp('stream', lambda c: run_stream_case(ctx, c), stream_strategy(), max_examples=ctx.n(300, 5000))
     for label, n in (
-        ('sdp:clients:1', 20), ('sdp:clients:2', 10), ('sdp:clients:3', 10),
+        ('sdp:clients:1', 20), ('sdp:clients:2', 10), ('sdp:clients:3', 10), ('sdp:late_joiner', 20),
         ('sdp:continuation', 20), ('sdp:ss_continuation', 3), ('sdp:ga_continuation', 5), ('sdp:sa_continuation', 5),
         ('sdp:size_at_capacity_multiple', 10), ('sdp:at_continuation_limit', 2),
         ('sdp:multi_uuid_pattern', 20), ('sdp:record_with_some_but_not_all_uuids', 10), ('sdp:pattern_matches', 20),
